@@ -8,8 +8,9 @@
                               L1Norm.__call__             -> `l1`
                               SquaredL2Norm.__call__      -> `sql2`
                               L2Norm.__call__             -> `l2`
-                              L21Norm.__call__            -> `l21None` (l2_axis=None, block-wise) / `l21Axes`
+                              L21Norm.__call__            -> `l21Call`: `l21None` (l2_axis=None, block-wise) / `l21Axes`
                               L1MinusL2Norm.__call__      -> `l1ml2`
+                              NuclearNorm.__call__        -> `nuclearCall` (singular values supplied: SVD is a contract)
                               HuberNorm._call_sep/_nonsep -> `huberSep` / `huberNonsep`
     scico/functional/_indicator.py:NonNegativeIndicator   -> `nonnegInd`,  L2BallIndicator -> `l2ballInd`
     scico/functional/_dist.py:SetDistance / Squared…      -> `setDist` / `sqSetDist` (projection supplied)
@@ -124,6 +125,14 @@ def l2 (cplx : Bool) (x : Arg α) : α := HasSqrt.sqrt ((sqmags cplx x.flat).sum
 def l21None (cplx : Bool) (x : Arg α) : α :=
   (x.blocks.map (fun b => absR (HasSqrt.sqrt ((sqmags cplx b).sum)))).sum
 
+/-- `NuclearNorm.__call__` given the singular values of the (2-D) argument:
+    `snp.sum(snp.linalg.svd(x, full_matrices=False, compute_uv=False))` -/
+def nuclearOfSv (sv : List α) : α := sv.sum
+
+/-- `NuclearNorm.__call__`: `ValueError` (`none`) unless the argument is two dimensional -/
+def nuclearCall (ndim : Nat) (sv : List α) : Option α :=
+  if ndim = 2 then some (nuclearOfSv sv) else none
+
 /-- `snp.sum(snp.abs(x)) - beta * norm(x)` -/
 def l1ml2 (cplx : Bool) (beta : α) (x : Arg α) : α := l1 cplx x - beta * l2 cplx x
 
@@ -176,6 +185,15 @@ def l21AxesOfSq (shape : List Nat) (axes : List Nat) (sq : List α) : α :=
 
 def l21Axes (cplx : Bool) (shape : List Nat) (axes : List Nat) (x : List α) : α :=
   l21AxesOfSq shape axes (sqmags cplx x)
+
+/-- `L21Norm.__call__`: `l2_axis=None` accepts plain and block arguments (block-wise rule); an
+    integer / tuple `l2_axis` accepts plain arrays only — a block argument raises `ValueError`
+    (`none`) -/
+def l21Call (cplx : Bool) (l2axis : Option (List Nat)) (shape : List Nat) (x : Arg α) : Option α :=
+  match l2axis, x with
+  | none, x => some (l21None cplx x)
+  | some axes, .arr v => some (l21Axes cplx shape axes v)
+  | some _, .blk _ => none
 
 /-- code-shaped 1-D finite difference of `SingleAxisFiniteDifference._eval` for the two
     configurations `TVNorm` uses: append a copy of the last (`append=0`) or of the first
